@@ -157,7 +157,9 @@ func MapComplement[T constraints.Integer](i1, i2 Map[T]) Map[T] {
 		}
 
 		intvs, cnt := complement(i1.Index(i), subList)
-		j += cnt
+		if cnt > 0 {
+			j += cnt
+		}
 
 		complements = append(complements, intvs...)
 	}
